@@ -14,6 +14,16 @@ Definition caps := list (nat * (nat * nat)).     (* group number -> (start, end)
 Fixpoint in_rs (c:N) (rs:list (N * N)) : bool := match rs with [] => false | (lo, hi) :: t => ((lo <=? c) && (c <=? hi)) || in_rs c t end.
 Definition mres := option (nat * caps).           (* end position, captures *)
 
+(* Loops follow the leftmost-first automaton semantics of regex-lite: an iteration of a loop that consumes nothing is a dead end when it
+   returns to the loop's decision point (the point was already visited at this position), except for the first iteration of `+`,
+   which reaches that point for the first time and may only leave the loop. *)
+Fixpoint nullable (r:re) : bool :=
+  match r with
+  | REmpty | RStar _ | ROpt _ | RBol | REol => true
+  | RChar _ | RAny | RClass _ _ => false
+  | RSeq a b => nullable a && nullable b | RAlt a b => nullable a || nullable b
+  | RPlus a | RGroup _ a => nullable a end.
+(* `x*` with a body that can match the empty string is compiled by the engine as `(x+)?` (so that the empty alternative keeps its priority) *)
 (* one match attempt at position p of the remaining text s, continuation-passing; None = no match (or out of fuel, see [fuel_ok]) *)
 Fixpoint m (fuel:nat) (r:re) (s:list N) (p:nat) (c:caps) (k:list N -> nat -> caps -> mres) {struct fuel} : mres :=
   match fuel with O => None | S f =>
@@ -24,13 +34,19 @@ Fixpoint m (fuel:nat) (r:re) (s:list N) (p:nat) (c:caps) (k:list N -> nat -> cap
   | RClass neg rs => match s with y :: t => if xorb neg (in_rs y rs) then k t (S p) c else None | [] => None end
   | RSeq a b => m f a s p c (fun s' p' c' => m f b s' p' c' k)
   | RAlt a b => match m f a s p c k with Some x => Some x | None => m f b s p c k end
-  | RStar a => match m f a s p c (fun s' p' c' => if Nat.eqb p' p then k s' p' c' else m f (RStar a) s' p' c' k) with Some x => Some x | None => k s p c end
-  | RPlus a => m f a s p c (fun s' p' c' => m f (RStar a) s' p' c' k)
+  | RStar a => if nullable a
+               then match m f (RPlus a) s p c k with Some x => Some x | None => k s p c end
+               else match m f a s p c (fun s' p' c' => if Nat.eqb p' p then None else m f (RStar a) s' p' c' k) with Some x => Some x | None => k s p c end
+  | RPlus a => m f a s p c (fun s' p' c' => if Nat.eqb p' p then k s' p' c' else loopj f a s' p' c' k)
   | ROpt a => match m f a s p c k with Some x => Some x | None => k s p c end
   | RGroup i a => m f a s p c (fun s' p' c' => k s' p' ((i, (p, p')) :: c'))
   | RBol => if Nat.eqb p 0 then k s p c else None
   | REol => match s with [] => k s p c | _ => None end
-  end end.
+  end end
+(* the decision point after an iteration of `+`: iterate again (an iteration that consumes nothing is a dead end here) or leave *)
+with loopj (fuel:nat) (a:re) (s:list N) (p:nat) (c:caps) (k:list N -> nat -> caps -> mres) {struct fuel} : mres :=
+  match fuel with O => None | S f =>
+    match m f a s p c (fun s' p' c' => if Nat.eqb p' p then None else loopj f a s' p' c' k) with Some x => Some x | None => k s p c end end.
 (* leftmost search from position p: (start, end, captures) *)
 Fixpoint search (fuel:nat) (r:re) (s:list N) (p:nat) {struct s} : option (nat * nat * caps) :=
   match m fuel r s p [] (fun _ p' c' => Some (p', c')) with
